@@ -163,7 +163,14 @@ class Explorer:
         for e in p.get('proj', []):
             k = e['k']
             if k == 'deref':
-                if t[0] == 'ref':
+                if t[0] == 'ref' and t[1][0] == 'loc':
+                    # reference to a local place: read the place's current value
+                    loc = t[1][1]
+                    cur = store.get(loc)
+                    if cur is None and loc[0] == 'L':
+                        cur = self.read_local(store, loc[1])
+                    t = cur if cur is not None else t[1][2]
+                elif t[0] == 'ref':
                     loc = ('M', t[1])
                     t = self.read_mem(store, t[1])
                 else:
@@ -258,12 +265,19 @@ class Explorer:
             # a reference to memory reached through a pointer is that pointer's pointee term
             if loc[0] == 'M':
                 return ('ref', loc[1])
-            return ('ref', ('loc', loc))
+            return ('ref', ('loc', loc, val))
         if k == 'bin':
             a = self.operand(store, r['a'])
             b = self.operand(store, r['b'])
             if r['checked']:
-                return ('pair', fold_bin(r['op'], a, b), ('ovf', r['op'], a, b))
+                ty = r['a'].get('ty', {}).get('s') if r['a']['k'] == 'const' else None
+                if ty is None and r['b']['k'] == 'const':
+                    ty = r['b'].get('ty', {}).get('s')
+                if ty is None and r['a']['k'] in ('copy', 'move') and not r['a']['place'].get('proj'):
+                    ty = self.body.local_ty(r['a']['place']['local']).get('s')
+                if ty is None and r['b']['k'] in ('copy', 'move') and not r['b']['place'].get('proj'):
+                    ty = self.body.local_ty(r['b']['place']['local']).get('s')
+                return ('pair', fold_bin(r['op'], a, b), ('ovf', r['op'], a, b, ty))
             return fold_bin(r['op'], a, b)
         if k == 'un':
             a = self.operand(store, r['a'])
@@ -390,7 +404,7 @@ class Explorer:
                 if k == 'assert':
                     c = self.operand(path.store, t['cond'])
                     args = tuple(self.operand(path.store, a) for a in t['args'])
-                    path.events.append(('assert', t['kind'], args, bb, c, t['expected']))
+                    path.events.append(('assert', t['kind'], args, bb, c, t['expected'], len(path.conds)))
                     if c[0] == 'const' and isinstance(c[1], bool) and c[1] != t['expected']:
                         path.end = ('diverge', bb)
                         out.append(path)
@@ -402,7 +416,15 @@ class Explorer:
                     name = callee_name(t)
                     args = tuple(self.operand(path.store, a) for a in t['args'])
                     res = ('call', name, args, bb)
-                    path.events.append(('call', name, args, bb, res, t))
+                    # widening conversions of integer constants (`i8::MIN.into()`) are constants
+                    if len(args) == 1 and args[0][0] == 'const' and isinstance(args[0][1], int) and not isinstance(args[0][1], bool) \
+                            and (name.endswith('::into') or name.endswith('::from')):
+                        dty = None
+                        if not t['dest'].get('proj'):
+                            dty = self.body.local_ty(t['dest']['local'])
+                        if dty is not None and dty.get('k') == 'int':
+                            res = ('const', args[0][1], dty['s'])
+                    path.events.append(('call', name, args, bb, res, t, len(path.conds)))
                     # effects through &mut arguments
                     for a_op, a in zip(t['args'], args):
                         self.havoc_through(path.store, a_op, a, bb)
@@ -616,7 +638,7 @@ def show(t, depth=0):
     if k == 'ref':
         return f"&{show(t[1], depth + 1)}"
     if k == 'loc':
-        return show_loc(t[1], depth + 1)
+        return show(t[2], depth + 1) if len(t) > 2 else show_loc(t[1], depth + 1)
     if k == 'index':
         return f"{show(t[1], depth + 1)}[{show(t[2], depth + 1)}]"
     if k == 'downcast':
